@@ -1,0 +1,38 @@
+//go:build verif
+// +build verif
+
+package xmpp
+
+import (
+	"time"
+
+	"gosrc.io/xmpp/stanza"
+)
+
+// Thin exported wrappers around unexported identifiers that the verified properties are
+// about. Only compiled with the "verif" build tag.
+
+type VerifBackoff = backoff
+
+func VerifBackoffDuration(b *VerifBackoff) time.Duration { return b.duration() }
+func VerifBackoffDurationForAttempt(b *VerifBackoff, attempt int) time.Duration {
+	return b.durationForAttempt(attempt)
+}
+func VerifBackoffReset(b *VerifBackoff) { b.reset() }
+func VerifBackoffWait(b *VerifBackoff)  { b.wait() }
+
+func VerifEnsurePort(addr string, port int) string { return ensurePort(addr, port) }
+
+func VerifRoute(r *Router, s Sender, p stanza.Packet) { r.route(s, p) }
+
+func VerifKeepalive(t Transport, interval time.Duration, quit <-chan struct{}) {
+	keepalive(t, interval, quit)
+}
+
+func VerifSetStreamManagementResume(c *Config, v bool) { c.streamManagementResume = v }
+
+func VerifClientTransport(c *Client) Transport         { return c.transport }
+func VerifSetClientTransport(c *Client, t Transport)   { c.transport = t }
+func VerifComponentTransport(c *Component) Transport   { return c.transport }
+func VerifClientConfig(c *Client) *Config              { return c.config }
+func VerifStreamManagerResume(sm *StreamManager) error { return sm.resume() }
